@@ -218,11 +218,15 @@ class BO(Conversions):
         """
         super().__setitem__(key, value)
 
-        for i in key:
-            if i not in self._mapping:
-                self._mapping[i] = self._next_label
-                self._reverse_mapping[self._next_label] = i
-                self._next_label += 1
+        # only register the labels that the parent class registers as
+        # variables: those of the squashed key, and only for nonzero values.
+        if value:
+            squashed_key = self.__class__.squash_key(key)
+            for i in key:
+                if i in squashed_key and i not in self._mapping:
+                    self._mapping[i] = self._next_label
+                    self._reverse_mapping[self._next_label] = i
+                    self._next_label += 1
 
     def to_enumerated(self):
         """to_enumerated.
